@@ -4,7 +4,7 @@
 # library suite still passes and the demo fails with / passes without the change,
 # then runs the property's check against the patched worktree (VERIF_REPO).
 set -e
-SD=$1; P=$2; TIER=${3:-quick}; shift; shift; [ $# -gt 0 ] && shift
+SD=$(cd "$1" && pwd); P=$2; TIER=${3:-quick}; shift; shift; [ $# -gt 0 ] && shift
 SEEDS=${*:-1 2 3}
 export GOFLAGS=-mod=mod GOPROXY=off GOSUMDB=off GOTOOLCHAIN=local
 WT=/tmp/seedwt-$$
@@ -13,6 +13,7 @@ trap 'git -C /repo worktree remove --force $WT >/dev/null 2>&1 || true' EXIT
 DEMO_DIR=$(grep -ioE '(decoder|schema|reference|lang|validator)(/[a-z/]*)?' $SD/NOTES.md | head -1 | sed 's#/$##')
 [ -z "$DEMO_DIR" ] && DEMO_DIR=decoder
 [ -f "$SD/DEMO_DIR" ] && DEMO_DIR=$(cat $SD/DEMO_DIR)
+[ -f "$SD/meta.json" ] && DEMO_DIR=$(python3 -c "import json,sys; print(json.load(open('$SD/meta.json'))['demo']['copy_into'])")
 cp $SD/demo_test.go $WT/$DEMO_DIR/zz_seed_demo_test.go
 (cd $WT && go test -vet=off -count=1 -run TestSeedDemo ./$DEMO_DIR >/tmp/seed-demo-clean.log 2>&1) && echo "demo without change: PASS" || { echo "demo without change: FAIL"; tail -5 /tmp/seed-demo-clean.log; }
 git -C $WT apply $SD/patch.diff
